@@ -198,7 +198,7 @@ def judge(ctx, groups):
 
 def run(ctx):
     rng = random.Random(ctx.seed)
-    ctx.add_tlc(vlib.tlc("MC_Steffensen", workers=2, timeout=600, deque=False), e1=True)
+    vlib.e1(ctx, "MC_Steffensen", "Steffensen", ["Begin", "Pass"], workers=2, timeout=600)
     affine = fncommon.gen_tlc(ctx, "Gen_C08", "c08")
     n = 1 if ctx.tier == "quick" else 8
     judge(ctx, [affine + systems(rng, 800 * n), polys(rng, 400 * n), steff(rng, 200 * n)])
